@@ -9,6 +9,8 @@
 //
 //   - local time zone: a request may start with the token "@tz=<zone>"; the request is then
 //     answered with time.Local set to that zone (what a process started with TZ=<zone> sees);
+//   - processors: "@procs=<n>" answers the request with GOMAXPROCS set to n;
+//   - the collector: every 16th window is followed by two garbage collections;
 //   - concurrent callers: requests are read in windows; the requests of some windows are asked
 //     again from several goroutines at the same time, and every answer must be the one the same
 //     request got when it was asked alone. The first window of a process is asked concurrently
@@ -21,6 +23,7 @@ import (
 	"io"
 	"log"
 	"os"
+	"runtime"
 	"strconv"
 	"strings"
 	"sync"
@@ -45,6 +48,7 @@ func safeCall(h handler, args []string) (resp string, props []string) {
 type job struct {
 	line  string
 	tz    string
+	procs int // GOMAXPROCS for this request (0 = as the process started)
 	toks  []string
 	resp  string
 	props []string
@@ -55,6 +59,22 @@ type job struct {
 var startLocal = time.Local
 var curTZ = ""
 var tzCache = map[string]*time.Location{}
+
+var startProcs = runtime.GOMAXPROCS(0)
+var curProcs = 0
+
+// setEnv makes the process look as the request's leading tokens say: local zone, GOMAXPROCS
+func setEnv(j *job) bool {
+	if j.procs != curProcs {
+		n := j.procs
+		if n <= 0 {
+			n = startProcs
+		}
+		runtime.GOMAXPROCS(n)
+		curProcs = j.procs
+	}
+	return setTZ(j.tz)
+}
 
 // setTZ makes the process's local zone the named one ("" = the zone the process started in)
 func setTZ(name string) bool {
@@ -83,8 +103,13 @@ func setTZ(name string) bool {
 func parseJob(line string) *job {
 	j := &job{line: line}
 	toks := strings.Split(line, " ")
-	if len(toks) > 0 && strings.HasPrefix(toks[0], "@tz=") {
-		j.tz = toks[0][4:]
+	for len(toks) > 0 && strings.HasPrefix(toks[0], "@") {
+		switch {
+		case strings.HasPrefix(toks[0], "@tz="):
+			j.tz = toks[0][4:]
+		case strings.HasPrefix(toks[0], "@procs="):
+			j.procs, _ = strconv.Atoi(toks[0][7:])
+		}
 		toks = toks[1:]
 	}
 	j.toks = toks
@@ -108,6 +133,14 @@ func answer(toks []string) (string, []string) {
 // they need the same process-wide configuration (calendar configuration, local zone, zone header).
 // "" = never asked concurrently (requests that change or depend on process state of the harness).
 func stormKey(j *job) string {
+	k := stormKey1(j)
+	if k == "" {
+		return ""
+	}
+	return fmt.Sprintf("%d|%s", j.procs, k)
+}
+
+func stormKey1(j *job) string {
 	t := j.toks
 	if len(t) < 2 {
 		return ""
@@ -289,7 +322,7 @@ func storm(win []*job, heavy bool, order string) {
 	}
 	for _, k := range keys {
 		js := groups[k]
-		if !setTZ(js[0].tz) || !stormPrepare(js[0]) {
+		if !setEnv(js[0]) || !stormPrepare(js[0]) {
 			continue
 		}
 		if order == "concurrent first" {
@@ -359,7 +392,7 @@ func main() {
 		}
 		t0 := time.Now()
 		for _, j := range win {
-			if !setTZ(j.tz) {
+			if !setEnv(j) {
 				j.resp = "bad-request"
 				continue
 			}
@@ -377,6 +410,12 @@ func main() {
 				}
 			}
 			pending = map[*job][]stormAns{}
+		}
+		if wi%16 == 7 {
+			// a garbage collection now and then: what a pool or a finalizer hands out afterwards must
+			// not matter (two in a row empty a sync.Pool's victim cache too)
+			runtime.GC()
+			runtime.GC()
 		}
 		if stormEvery > 0 && wi%stormEvery == stormEvery-1 {
 			storm(win, heavy, "asked alone first, then concurrently")
